@@ -184,3 +184,76 @@ theorem sortedKV_ext (a b : List (K × V)) (ha : SortedKV a) (hb : SortedKV b)
         rw [lookup_none_of_all_gt _ a (sortedKV_head_lt ha), lookup_none_of_all_gt _ b (sortedKV_head_lt hb)]
       · simpa [hc] using h1
 end Iavl
+
+namespace Iavl
+open Std
+set_option linter.unusedSectionVars false
+set_option linter.unusedSimpArgs false
+variable {K V : Type} [Ord K] [BEq K] [TransOrd K] [LawfulEqOrd K]
+
+/-- an ordered tree lists its pairs in strictly ascending key order -/
+theorem sortedKV_toList (t : Node K V) (ho : Ordered t) : SortedKV t.toList := by
+  induction t with
+  | leaf k v ver => simp [SortedKV]
+  | inner k h sz ver l r ihl ihr =>
+    obtain ⟨hol, hor, hl, hr⟩ := ho
+    simp only [toList_inner, SortedKV]
+    refine List.pairwise_append.mpr ⟨ihl hol, ihr hor, ?_⟩
+    intro a ha b hb
+    exact TransCmp.lt_of_lt_of_isLE (hl _ ha) (hr _ hb)
+
+/-- in a sorted map the pair of a present key sits at index `rank key` -/
+theorem getElem_rank_of_lookup (m : List (K × V)) (hs : SortedKV m) (k : K) (v : V)
+    (h : lookup k m = some v) : m[rank k m]? = some (k, v) := by
+  induction m with
+  | nil => simp [lookup] at h
+  | cons a m ih =>
+    simp only [lookup] at h
+    cases hc : compare k a.1 with
+    | eq =>
+      have hk : k = a.1 := cmp_eq_iff.mp hc
+      simp only [hc, if_true, Option.some.injEq] at h
+      have hr : rank k (a :: m) = 0 := by
+        apply rank_all_ge
+        intro p hp
+        rcases List.mem_cons.mp hp with hp | hp
+        · subst hp; rw [hk, cmp_eq_iff.mpr rfl]; simp
+        · have := sortedKV_head_lt hs p hp
+          rw [hk]; rw [cmp_gt_of_lt this]; simp
+      rw [hr]
+      simp only [List.getElem?_cons_zero, Option.some.injEq]
+      exact Prod.ext hk.symm h
+    | lt =>
+      simp only [hc] at h
+      have : lookup k m = none := lookup_none_of_all_gt k m (fun p hp => TransCmp.lt_trans hc (sortedKV_head_lt hs p hp))
+      simp [this] at h
+    | gt =>
+      simp only [hc] at h
+      have hlt : compare a.1 k = .lt := OrientedCmp.lt_of_gt hc
+      have hr : rank k (a :: m) = rank k m + 1 := by
+        simp [rank, List.filter_cons, hlt]
+      rw [hr, List.getElem?_cons_succ]
+      exact ih (sortedKV_tail hs) (by simpa using h)
+
+/-- … and the key at index i has rank i -/
+theorem rank_getElem (m : List (K × V)) (hs : SortedKV m) (i : Nat) (p : K × V) (h : m[i]? = some p) :
+    rank p.1 m = i := by
+  induction m generalizing i with
+  | nil => simp at h
+  | cons a m ih =>
+    cases i with
+    | zero =>
+      simp only [List.getElem?_cons_zero, Option.some.injEq] at h
+      subst h
+      apply rank_all_ge
+      intro q hq
+      rcases List.mem_cons.mp hq with hq | hq
+      · subst hq; rw [cmp_eq_iff.mpr rfl]; simp
+      · rw [cmp_gt_of_lt (sortedKV_head_lt hs q hq)]; simp
+    | succ j =>
+      simp only [List.getElem?_cons_succ] at h
+      have hm : p ∈ m := List.mem_of_getElem? h
+      have hlt : compare a.1 p.1 = .lt := sortedKV_head_lt hs p hm
+      have : rank p.1 (a :: m) = rank p.1 m + 1 := by simp [rank, List.filter_cons, hlt]
+      rw [this, ih (sortedKV_tail hs) j h]
+end Iavl
